@@ -38,7 +38,10 @@ def _bootstrap():
         sys.path.insert(0, ROOT)
 
 
-def _worker_init():
+def _worker_init(stop=None):
+    if stop is not None:
+        from sx import engine
+        engine.STOP = stop
     if DEPS not in sys.path:
         sys.path.append(DEPS)
     if ROOT not in sys.path:
@@ -167,14 +170,32 @@ def main(argv=None):
     nproc = int(os.environ.get("SX_PROCS", "16"))
     results = [None] * len(tasks)
     order = sorted(range(len(tasks)), key=lambda i: -tasks[i].get("weight", 1))
-    with cf.ProcessPoolExecutor(max_workers=max(1, min(nproc, len(tasks) or 1)), initializer=_worker_init) as pool:
+    import multiprocessing
+    stop = multiprocessing.Event()
+    known = load_known()
+    tasks_with_new = 0
+    stop_after = int(os.environ.get("SX_STOP_AFTER", "8"))  # tasks with unlisted counterexamples before the rest is abandoned
+    with cf.ProcessPoolExecutor(max_workers=max(1, min(nproc, len(tasks) or 1)), initializer=_worker_init, initargs=(stop,)) as pool:
         futs = {pool.submit(_run_task, tasks[i]): i for i in order}
         for f in cf.as_completed(futs):
             i = futs[f]
             try:
                 results[i] = f.result()
+            except cf.CancelledError:
+                results[i] = {"task": tasks[i], "skipped": True}
             except BaseException as e:
                 results[i] = {"task": tasks[i], "fatal": repr(e)}
+            # Once several tasks have produced counterexamples that no known finding lists, the verdict can only be
+            # "violation" (if they replay) or "inconclusive": abandon the remaining tasks instead of exploring trees
+            # that a broken implementation may have made arbitrarily large.
+            r = results[i]
+            if not tasks[i].get("canary") and not stop.is_set() and any(
+                    known_match(prop, sig_of(tasks[i], v["label"]), known) is None for v in r.get("violations", [])):
+                tasks_with_new += 1
+                if tasks_with_new >= stop_after:
+                    stop.set()
+                    for g in futs:
+                        g.cancel()
             if os.environ.get("SX_VERBOSE"):
                 r = results[i]
                 print(f"[{time.time()-t0:6.1f}s] task {i} {tasks[i].get('name', tasks[i].get('harness'))}: "
@@ -200,6 +221,10 @@ def finish(prop, tier, seed, mod, tasks, results, t0):
     exhaustive = True
     for task, r in zip(tasks, results):
         name = task.get("name", task.get("harness"))
+        if r is not None and r.get("skipped"):
+            exhaustive = False
+            extra_cov["tasks_abandoned_after_violations"] = extra_cov.get("tasks_abandoned_after_violations", 0) + 1
+            continue
         if r is None or "fatal" in r:
             problems.append(f"task {name}: worker failure {(r or {}).get('fatal', '')[-400:]}")
             continue
@@ -226,7 +251,10 @@ def finish(prop, tier, seed, mod, tasks, results, t0):
             if not ok:
                 problems.append(f"canary {name} was not detected: the harness cannot see that class of bug")
             continue
-        if not r.get("exhausted", False):
+        if r.get("stopped"):
+            exhaustive = False
+            extra_cov["tasks_abandoned_after_violations"] = extra_cov.get("tasks_abandoned_after_violations", 0) + 1
+        elif not r.get("exhausted", False):
             exhaustive = False
             problems.append(f"task {name}: decision tree not exhausted ({r.get('paths')} paths)")
         if r.get("unknown") or r.get("inconclusive"):
